@@ -97,7 +97,7 @@ theorem rfindDot_none {l : List Char} (h : rfindDot l = none) : '.' ∉ l := by
         · exact hd h'.symm
         · exact ih hr2 h'
 
-/-! ## exactly when `new` panics (defect F5) -/
+/-! ## `new` is total (after the repair of defect F5) -/
 
 theorem utf8Size_one_iff (c : Char) : c.utf8Size = 1 ↔ c.toNat < 128 := by
   rw [Char.utf8Size_eq_one_iff, UInt32.le_iff_toNat_le]
@@ -106,28 +106,25 @@ theorem utf8Size_one_iff (c : Char) : c.utf8Size = 1 ↔ c.toNat < 128 := by
   have : (127 : UInt32).toNat = 127 := rfl
   rw [this]; omega
 
-theorem sliceFrom_one (name : List Char) :
-    sliceFrom name 1 = match name with
-      | [] => none
-      | c :: cs => if c.utf8Size = 1 then some cs else none := by
+/-- `name[first_char_len..]` is always on a character boundary: it is the name without its first character -/
+theorem sliceFrom_first (name : List Char) : sliceFrom name (firstCharLen name) = some name.tail := by
   cases name with
   | nil => rfl
   | cons c cs =>
-    have hp := c.utf8Size_pos
-    simp only [sliceFrom]
-    by_cases h : c.utf8Size = 1
-    · simp [h, sliceFrom_zero]
-    · have : ¬ c.utf8Size ≤ 0 + 1 := by omega
-      simp [h, this]
+    have := sliceFrom_cons_add c cs 0
+    simp only [Nat.add_zero] at this
+    simp only [firstCharLen, List.tail_cons, this, sliceFrom_zero]
 
-/-- what `new` computes when the first character is a single byte -/
-theorem newL_cons (c : Char) (cs : List Char) (h1 : c.utf8Size = 1) :
+theorem newL_nil : newL [] = .ok (newParts [] [] none) := rfl
+
+/-- what `new` computes on a non-empty name, whatever its first character -/
+theorem newL_cons (c : Char) (cs : List Char) :
     (rfindDot cs = none ∧ newL (c :: cs) = .ok (newParts (c :: cs) (c :: cs) none)) ∨
     (∃ pre post, cs = pre ++ '.' :: post ∧ '.' ∉ post ∧
       newL (c :: cs) = .ok (newParts (c :: cs) (c :: pre) (some post))) := by
   unfold newL
-  rw [sliceFrom_one]
-  simp only [h1, if_true]
+  rw [sliceFrom_first]
+  simp only [List.tail_cons, firstCharLen]
   cases hr : rfindDot cs with
   | none => left; simp
   | some i =>
@@ -136,41 +133,27 @@ theorem newL_cons (c : Char) (cs : List Char) (h1 : c.utf8Size = 1) :
     refine ⟨pre, post, e, hn, ?_⟩
     have e1 : c :: cs = (c :: pre) ++ ('.' :: post) := by simp [e]
     have e2 : c :: cs = (c :: pre ++ ['.']) ++ post := by simp [e]
-    have l1 : utf8Len (c :: pre) = i + 1 := by simp [utf8Len, h1, hl]; omega
-    have l2 : utf8Len (c :: pre ++ ['.']) = i + 1 + 1 := by
+    have l1 : utf8Len (c :: pre) = i + c.utf8Size := by simp [utf8Len, hl]; omega
+    have l2 : utf8Len (c :: pre ++ ['.']) = i + c.utf8Size + 1 := by
       have : utf8Len ['.'] = 1 := by decide
       rw [utf8Len_append, l1, this]
-    have s1 : sliceTo (c :: cs) (i + 1) = some (c :: pre) := by
+    have s1 : sliceTo (c :: cs) (i + c.utf8Size) = some (c :: pre) := by
       rw [← l1]; conv => lhs; rw [e1]
       exact sliceTo_append _ _
-    have s2 : sliceFrom (c :: cs) (i + 1 + 1) = some post := by
+    have s2 : sliceFrom (c :: cs) (i + c.utf8Size + 1) = some post := by
       rw [← l2]; conv => lhs; rw [e2]
       exact sliceFrom_append _ _
     simp only [s1, s2]
 
-theorem newL_panic_iff (name : List Char) :
-    newL name = .error .panic ↔ name = [] ∨ ∃ c cs, name = c :: cs ∧ 1 < c.utf8Size := by
+/-- none of the three slices of `new` can panic -/
+theorem newL_total (name : List Char) : ∃ g, newL name = .ok g := by
   cases name with
-  | nil => simp [newL, sliceFrom]
+  | nil => exact ⟨_, newL_nil⟩
   | cons c cs =>
-    have hp := c.utf8Size_pos
-    by_cases h1 : c.utf8Size = 1
-    · have : ¬ 1 < c.utf8Size := by omega
-      simp only [reduceCtorEq, List.cons.injEq, false_or]
-      constructor
-      · intro h
-        rcases newL_cons c cs h1 with ⟨_, h'⟩ | ⟨_, _, _, _, h'⟩ <;> rw [h'] at h <;> cases h
-      · rintro ⟨c', cs', ⟨rfl, rfl⟩, h⟩; omega
-    · have : 1 < c.utf8Size := by omega
-      constructor
-      · intro _; right; exact ⟨c, cs, rfl, this⟩
-      · intro _
-        unfold newL; rw [sliceFrom_one]; simp [h1]
+    rcases newL_cons c cs with ⟨_, h⟩ | ⟨_, _, _, _, h⟩ <;> exact ⟨_, h⟩
 
-/-- `new` never fails in any other way -/
-theorem newL_error (name : List Char) (e : Err) (h : newL name = .error e) : e = .panic := by
-  unfold newL at h
-  repeat' split at h
-  all_goals first | cases h; rfl | cases h
+theorem newL_ne_error (name : List Char) (e : Err) : newL name ≠ .error e := by
+  obtain ⟨g, h⟩ := newL_total name
+  rw [h]; intro h'; cases h'
 
 end FatVerif.Names
